@@ -496,10 +496,14 @@ func linearizeReceives(labels []string) []string {
 // qForeignEvent reports hook events that belong to other families' instrumentation and carry no
 // information for the read-pipeline models.
 func qForeignEvent(kind string) bool {
-	for _, p := range []string{"send.", "sb.", "scan.row", "actor.", "fl.", "fq.", "flush.", "ingest.", "worker.", "stop.", "start", "ctx.cancel", "mg."} {
+	for _, p := range []string{"send.", "sb.", "scan.row", "actor.", "fl.", "fq.", "flush.", "ingest.", "worker.", "stop.", "start", "ctx.cancel", "mg.", "mem.", "fs.scan."} {
 		if strings.HasPrefix(kind, p) {
 			return true
 		}
+	}
+	switch kind { // filesystem-store events (family F); the read pipeline's own file-stage events are fs.start, fs.pull, ...
+	case "fs.dirsync", "fs.hclose", "fs.lost", "fs.remove", "fs.rename", "fs.resclose", "fs.reserve", "fs.sync", "fs.tmpcreate", "fs.write":
+		return true
 	}
 	return false
 }
